@@ -403,6 +403,11 @@ class Logix( Message_Router ):
                     attribute.parser.tag_type, (attribute.parser.tag_type,) ), \
                     "Tag type %d in request doesn't fit within Attribute type %d" % ( 
                         data[context].type, attribute.parser.tag_type )
+                if data[context].type != attribute.parser.tag_type:
+                    # A compatible but different type (eg. USINT into SINT); every value must also be
+                    # representable in the Attribute's type, or subsequent reads of it would fail.
+                    for v in data[context].get( 'data', [] ):
+                        attribute.parser.produce( v )
             else:
                 raise AssertionError( "Unhandled Service Reply" )
 
